@@ -154,11 +154,25 @@ func TestVerifC20(t *testing.T) { //nolint:cyclop,gocognit,maintidx
 		}
 		run.Count("send_probes_not_open", 1)
 	}
-	finishPair := func(p *c20Pair) {
+	finishPair := func(p *c20Pair) bool {
 		sched.ReleaseAll()
 		_ = p.a.Close()
 		_ = p.b.Close()
+		// A peer may already be closing on its own (the remote DTLS close makes pion close the PeerConnection from an
+		// internal goroutine), in which case Close returns at once while that close is still walking the channels.
+		// GracefulClose waits for the close in progress, so "the transport is gone" really holds when the oracle runs.
+		done := make(chan struct{})
+		go func() { _ = p.a.GracefulClose(); _ = p.b.GracefulClose(); close(done) }()
+		select {
+		case <-done:
+		case <-time.After(wd):
+			run.Inconclusive("final-gracefulclose-did-not-return")
+
+			return false
+		}
 		time.Sleep(5 * time.Millisecond) // let handler goroutines of the last transitions run (they only add to counters)
+
+		return true
 	}
 
 	type script struct {
@@ -392,7 +406,11 @@ func TestVerifC20(t *testing.T) { //nolint:cyclop,gocognit,maintidx
 			}
 			ok := sc.f(p)
 			sched.Perturb(0)
-			finishPair(p)
+			if !finishPair(p) {
+				idx++
+
+				continue
+			}
 			if !ok {
 				run.Inconclusive("scripted-point-not-reached:" + sc.name)
 			} else {
@@ -472,8 +490,9 @@ func TestVerifC20(t *testing.T) { //nolint:cyclop,gocognit,maintidx
 			run.Inconclusive("random-actors-did-not-return")
 		}
 		sched.Perturb(0)
-		finishPair(p)
-		analyse(i, "random", p, 2)
+		if finishPair(p) {
+			analyse(i, "random", p, 2)
+		}
 	}
 	run.Set("hook_passes", sched.AllPasses())
 }
